@@ -65,6 +65,8 @@ class Recorder:
         if self._bucket[bk] <= self.MAX_FAIL_PER_KIND and len(self.failures) < 2000:
             d = {'kind': kind, 'case': case}
             d.update(detail)
+            if getattr(self, 'shard_spec', None) is not None:
+                d['_shard'] = self.shard_spec
             self.failures.append(d)
 
     def maxi(self, key, value, case=None):
@@ -122,6 +124,7 @@ def shard_main(argv):
         raise SystemExit('a5 imported from %s, not from %s' % (a5file, root))
     ctx = Recorder(spec['seed'], spec['shard'])
     ctx.tier = spec['tier']
+    ctx.shard_spec = spec
     t0 = time.time()
     try:
         mod.run_shard(spec, ctx)
@@ -368,6 +371,20 @@ def replay_main(path):
                 return 2
             ctx.fail('api_raised_unexpectedly', f.get('case'), exc=repr(e),
                      where='%s:%d %s' % (os.path.basename(tb[-1].filename), tb[-1].lineno, tb[-1].name) if tb else '')
+    if not ctx.failures and f.get('_shard') and f['kind'] != 'api_raised_unexpectedly':
+        # the case alone does not reproduce: the violation may depend on what ran before it (history, cache state, schedule).
+        # Re-run the shard that observed it - same seed, same shard number, hence the same workload
+        print('single case did not reproduce; re-running the recorded shard %r' % ({k: v for k, v in f['_shard'].items() if k != 'pairs'},))
+        spec = dict(f['_shard'])
+        r2 = Recorder(spec.get('seed', 1), spec.get('shard', 0))
+        r2.tier = spec.get('tier', 'quick')
+        try:
+            import a5  # noqa
+            mod.run_shard(spec, r2)
+        except Exception as e:
+            r2.fail('api_raised_unexpectedly', f.get('case'), exc=repr(e))
+        same = [x for x in r2.failures if x['kind'] == f['kind']] or r2.failures
+        ctx.failures.extend(same[:5])
     if ctx.failures:
         from . import findings
         known, viol = findings.classify(prop, jsonable(ctx.failures))
